@@ -24,8 +24,6 @@ import (
 	uslib "github.com/vicanso/upstream"
 )
 
-const maxTasks = 512
-
 // Engine is the controller of one simulated run (one synctest bubble).
 type Engine struct {
 	plan   *Plan
@@ -52,7 +50,7 @@ type Engine struct {
 	upCount map[string]int
 	stCount int
 
-	disk       *Disk
+	disks      map[string]*Disk
 	stores     map[string]*simStore
 	listeners  map[string]http.Handler
 	netMode    map[string]string
@@ -62,6 +60,11 @@ type Engine struct {
 	onStep     func(e *Engine)
 	stuck      bool
 	lastRun    *Task
+	live       []*Task
+	seenTasks  int
+	doneUpTo   int
+	evLog      []string
+	inlineBuf  []*StoreRec
 }
 
 var curEngine atomic.Pointer[Engine]
@@ -156,9 +159,9 @@ func newEngine(plan *Plan, sched []string) *Engine {
 		rng:       rand.New(rand.NewPCG(plan.Seed, 0x5eed5eed)),
 		wrng:      rand.New(rand.NewPCG(plan.Seed, 0x77071d)),
 		replay:    sched,
-		tasks:     make([]*Task, 0, maxTasks),
+		tasks:     make([]*Task, 0, 2*len(plan.Ops)+256),
 		hist:      newHistory(),
-		disk:      newDisk(),
+		disks:     map[string]*Disk{},
 		stores:    map[string]*simStore{},
 		listeners: map[string]http.Handler{},
 		netMode:   map[string]string{},
@@ -319,7 +322,7 @@ func (e *Engine) newTask(name, kind string, op int, fn func(t *Task)) *Task {
 	raceDisable()
 	t.resume = make(chan int)
 	raceEnable()
-	if len(e.tasks) >= maxTasks {
+	if len(e.tasks) >= cap(e.tasks) {
 		panic("sim: too many tasks")
 	}
 	e.tasks = append(e.tasks, t)
@@ -366,6 +369,7 @@ func (e *Engine) registerStores() {
 				if _, ok := e.stores[c.Store]; !ok {
 					s := &simStore{e: e, url: c.Store}
 					e.stores[c.Store] = s
+					e.disks[c.Store] = newDisk()
 					pikestore.VerifRegisterStore(c.Store, s)
 				}
 			}
@@ -400,6 +404,13 @@ func (e *Engine) watchEvictions(cfg *Config) {
 
 //go:norace
 func (e *Engine) noteEvict(s string) { e.evicted = append(e.evicted, s) }
+
+//go:norace
+func (e *Engine) drainEvicted() []string {
+	ev := e.evicted
+	e.evicted = nil
+	return ev
+}
 
 func (e *Engine) teardown() {
 	atomic.StoreInt32(&e.mode, 1)
@@ -505,17 +516,26 @@ func (e *Engine) run() *Outcome {
 	return out
 }
 
+// liveTasks: tasks that are neither done nor dead (maintained by observe).
 func (e *Engine) liveTasks() []*Task {
+	e.refreshLive()
+	return e.live
+}
+
+func (e *Engine) refreshLive() {
 	n := int(e.ntasks.Load())
-	var out []*Task
-	for i := 0; i < n; i++ {
-		t := e.tasks[i]
-		s := t.getState()
-		if s != tsDone && s != tsDead {
-			out = append(out, t)
-		}
+	for ; e.seenTasks < n; e.seenTasks++ {
+		e.live = append(e.live, e.tasks[e.seenTasks])
 	}
-	return out
+	keep := e.live[:0]
+	for _, t := range e.live {
+		s := t.getState()
+		if (s == tsDone && t.seenState == tsDone) || s == tsDead {
+			continue
+		}
+		keep = append(keep, t)
+	}
+	e.live = keep
 }
 
 func (e *Engine) finished() bool {
@@ -545,9 +565,11 @@ func (e *Engine) reportStuck() {
 
 // observe brings the controller's view up to date after synctest.Wait.
 func (e *Engine) observe() {
-	n := int(e.ntasks.Load())
+	live := e.liveTasks()
+	n := len(live)
+	tasksOf := func(i int) *Task { return live[i] }
 	for i := 0; i < n; i++ {
-		t := e.tasks[i]
+		t := tasksOf(i)
 		st := t.getState()
 		if st == tsDead {
 			continue
@@ -577,10 +599,19 @@ func (e *Engine) observe() {
 			}
 		}
 	}
+	e.flushInlineStores()
+	if ev := e.drainEvicted(); len(ev) > 0 {
+		sort.Strings(ev)
+		for _, x := range ev {
+			e.ev("evict", "", x)
+		}
+		e.evLog = append(e.evLog, ev...)
+		e.hist.Probes["evictions"] += len(ev)
+	}
 	// coalescing facts: a request seen natively blocked inside pike waits behind a
 	// fetch; the task that ran in the step in which it left that state released it
 	for i := 0; i < n; i++ {
-		t := e.tasks[i]
+		t := tasksOf(i)
 		if t.rec == nil {
 			continue
 		}
@@ -624,10 +655,11 @@ func (e *Engine) observe() {
 
 func (e *Engine) enabled() []action {
 	var acts []action
-	n := int(e.ntasks.Load())
+	live := e.liveTasks()
+	n := len(live)
 	// poll lock waiters
 	for i := 0; i < n; i++ {
-		t := e.tasks[i]
+		t := live[i]
 		if t.isLockWait() {
 			e.release(t, opPoll)
 			e.wait()
@@ -635,7 +667,7 @@ func (e *Engine) enabled() []action {
 	}
 	withheldOnly := []action{}
 	for i := 0; i < n; i++ {
-		t := e.tasks[i]
+		t := live[i]
 		switch t.getState() {
 		case tsParked:
 			if t.isLockWait() {
@@ -666,12 +698,10 @@ func (e *Engine) enabled() []action {
 		op := &e.plan.Ops[e.nextOp]
 		ok := true
 		if op.Barrier || e.plan.Sequential {
-			for i := 0; i < e.nextOp; i++ {
-				if !e.opDone[i] {
-					ok = false
-					break
-				}
+			for e.doneUpTo < e.nextOp && e.opDone[e.doneUpTo] {
+				e.doneUpTo++
 			}
+			ok = e.doneUpTo >= e.nextOp
 			// background goroutines of earlier ops (e.g. server close) do not hold a barrier
 		}
 		if ok {
